@@ -30,8 +30,8 @@ class SelfObj:
     def __repr__(s): return "<self>"
 class RowCur:
     """row cursor obtained from the receiver, positioned before row `pos` (L-NTH)"""
-    def __init__(s, pos): s.pos = pos
-    def __repr__(s): return "rowcur@%r" % (s.pos,)
+    def __init__(s, pos, back=None): s.pos = pos; s.back = back if back is not None else ZERO     # `back` rows consumed from the end
+    def __repr__(s): return "rowcur@%r" % (s.pos,) + ("" if s.back == ZERO else "-%r" % (s.back,))
 class RowRef:
     def __init__(s, row): s.row = row
     def __repr__(s): return "row[%r]" % (s.row,)
@@ -176,10 +176,19 @@ class Ev:
             k = args[1] if name == "nth" else ZERO
             if not isinstance(k, Poly): raise Inconclusive("nth(%r)" % (k,))
             row = a0.pos + k
-            newc = RowCur(row + ONE)
+            newc = RowCur(row + ONE, a0.back)
             if ref0 is not None: P.env[ref0.root] = newc
             P.acc.append(("nth", row, t["span"]["lo"]))
             return [(P, Adt("Option", "Some", [RowRef(row)]))]          # None => unwrap panics: that is the bounds check
+        if isinstance(a0, RowCur) and name in ("nth_back", "next_back") and (fn.get("trait") or "").endswith("Iterator"):
+            # from the other end: the k-th row from the back of what is left is row R - 1 - back - k
+            k = args[1] if name == "nth_back" else ZERO
+            if not isinstance(k, Poly): raise Inconclusive("nth_back(%r)" % (k,))
+            row = Poly.atom("R") - ONE - a0.back - k
+            newc = RowCur(a0.pos, a0.back + k + ONE)
+            if ref0 is not None: P.env[ref0.root] = newc
+            P.acc.append(("nth", row, t["span"]["lo"]))
+            return [(P, Adt("Option", "Some", [RowRef(row)]))]
         if isinstance(a0, ChunkCur) and name in ("nth", "next") and (fn.get("trait") or "").endswith("Iterator"):
             k = args[1] if name == "nth" else ZERO
             if not isinstance(k, Poly): raise Inconclusive("chunks nth(%r)" % (k,))
@@ -332,9 +341,34 @@ class Ev:
     def step(s, P, bb, n):
         if n > 300: raise Inconclusive("loop")
         bl = s.b["blocks"][bb]
-        for st in bl["stmts"]:
+        for si_, st in enumerate(bl["stmts"]):
             if st["k"] != "assign": continue
             rv = st["rv"]; rv["span"] = st["span"]["lo"]
+            if getattr(s, "sub_strict", False) and rv["k"] == "binop" and rv["op"].startswith("Sub") and not getattr(P, "_substep", None) == (bb, si_):
+                # L-NTH mode: `a - b` on usize panics (or wraps to a row number no array has) when b > a: such a path ends in the
+                # unwrap's panic, it never addresses a row
+                a_, b_ = s.operand(P, rv["l"]), s.operand(P, rv["r"])
+                if isinstance(a_, Poly) and isinstance(b_, Poly):
+                    c_ = Cond(">=", a_ - b_)
+                    dec = decide(P.conds, c_)
+                    if dec is None:
+                        dec = decide(saturate(P.conds), c_)
+                    if dec is None:
+                        # substitute the path's equalities `x - y == 0` between two atoms and look at the sign of what is left
+                        q_ = a_ - b_
+                        for ce in P.conds:
+                            if ce.op == "==" and ce.poly is not None and len(ce.poly.t) == 2 and () not in ce.poly.t:
+                                (m1, v1), (m2, v2) = sorted(ce.poly.t.items())
+                                if len(m1) == 1 and len(m2) == 1 and v1 == -v2 and abs(v1) == 1:
+                                    q_ = subst_atom(q_, m1[0], Poly.atom(m2[0]))
+                        if q_.is_const():
+                            dec = q_.cval() >= 0
+                    if dec is False:
+                        s.out.append((P, ("panic", "sub")))
+                        return
+                    if dec is None:
+                        Qn = P.fork(); Qn.conds.append(c_.neg()); s.out.append((Qn, ("panic", "sub")))
+                        P.conds.append(c_)
             s.write(P, st["p"], s.rvalue(P, rv))
         t = bl["term"]; k = t["k"]
         if k == "goto": return s.step(P, t["target"], n + 1)
@@ -606,6 +640,17 @@ def _drop_zero(p, Z):
     return Poly({k: v for k, v in p.t.items() if not any(a in Z for a in k)})
 
 
+def subst_atom(p, atom, repl):
+    """p with every occurrence of `atom` replaced by the polynomial `repl`"""
+    out = Poly()
+    for mono, coef in p.t.items():
+        term = Poly.const(coef)
+        for a in mono:
+            term = term * (repl if a == atom else Poly.atom(a))
+        out = out + term
+    return out
+
+
 def _places_of(x):
     if isinstance(x, dict):
         if "local" in x and "proj" in x:
@@ -828,6 +873,7 @@ def r_nth(f):
                 args.append(Unknown(nm))
         try:
             ev = Ev(allb, b.d, args)
+            ev.sub_strict = True
             res = ev.run()
         except Inconclusive as e:
             R.inconc(b.ident, "engine inconclusive: %s" % e)
@@ -838,6 +884,7 @@ def r_nth(f):
         names = [pn.get(i) for i in range(2, b.arg_count + 1)]
         bad = []
         npaths = 0
+        returns_when_equal = False
         for (P, oc) in res:
             if oc[0] == "panic":
                 continue
@@ -848,6 +895,8 @@ def r_nth(f):
                 return a == b2 or decide(conds, Cond("==", a - b2)) is True
             if name == "swap_rows":
                 A, B = Poly.atom(names[0]), Poly.atom(names[1])
+                if decide(conds, Cond("!=", A - B)) is not True:
+                    returns_when_equal = True
                 sw = [a for a in P.acc if a[0] == "swaprows"]
                 if decide(conds, Cond("==", A - B)) is True and not sw:
                     continue            # equal rows: nothing to do
@@ -875,6 +924,8 @@ def r_nth(f):
                     okp = (cell_same(got[0], W1) and cell_same(got[1], W2)) or (cell_same(got[0], W2) and cell_same(got[1], W1))
                 if not okp:
                     bad.append(("swaps cells %s" % [(repr(x[1]), repr(x[2])) for x in sw], P.conds))
+        if name == "swap_rows" and npaths and not returns_when_equal:
+            bad.append(("has no returning path for r1 == r2 (every such path ends in a panic: `r2 - r1 - 1` underflows, or nth() runs off the end)", []))
         n += 1
         R.inst(b.ident, "on all %d returning paths the rows / cells reached through rows_mut().nth(..) are exactly the ones named by the arguments (L-NTH)" % npaths, not bad and npaths > 0)
         seen = set()
